@@ -41,6 +41,11 @@ def run(tier):
                 if ro:
                     kn["VF_READ_ONE"] = ro
                 jobs.append(BH.make_job(api, a, kn, "eof-%d-%s-%s" % (ai, api, ro), sources=srcs))
+    # nested sources: buffers pushed from inside actions (include files), so that yywrap / <<EOF>> can also answer by popping back
+    for api in ("NR", "R", "C99"):
+        for a in (asg[0], asg[len(asg) // 2]):
+            kn = {"VF_BUDGET_DEFAULT": dev, "VF_BUDGET_TOTAL": dev, "VF_CALLMASK": MASK, "VF_MAX_OPS": 2, "VF_ACTION_PUSH": 1, "VF_READ_ONE": 1}
+            jobs.append(BH.make_job(api, a, kn, "eof-nested-%s-%d" % (api, asg.index(a)), sources=srcs))
     # full and fast tables take other end-of-buffer paths
     for fa in (["-Cf"], ["-CFe"], ["-B"]):
         kn = {"VF_BUDGET_DEFAULT": dev, "VF_BUDGET_TOTAL": dev, "VF_CALLMASK": MASK, "VF_MAX_OPS": 2, "VF_READ_ONE": 1}
